@@ -1,6 +1,7 @@
 package main
 
 import (
+	crand "crypto/rand"
 	"fmt"
 	"math/big"
 	"strconv"
@@ -11,6 +12,12 @@ import (
 	"github.com/smallstep/certificates/api"
 	c "verif/harness/common"
 )
+
+func randUint() (uint32, error) {
+	var b [4]byte
+	_, err := crand.Read(b[:])
+	return uint32(b[0])<<24 | uint32(b[1])<<16 | uint32(b[2])<<8 | uint32(b[3]), err
+}
 
 // ---------------------------------------------------------------- serial stage
 
